@@ -260,6 +260,38 @@ func runC16(c *Ctx) {
 			c.Out.Sample(map[string]interface{}{"case": cs.ID, "origin": "library writer", "records": len(cs.Recs), "partition": clipInts(cs.Partition), "page": cs.Page, "codec": CodecNames[cs.Codec], "file_bytes": len(file)})
 		})
 	}
+	// files without any row: Close only, records added but never written, a Write with nothing pending
+	for _, sh := range c.SelShapes() {
+		pool := recordPool(sh.Schema(), 4)
+		for _, h := range []string{"", "AA", "W", "WAW"[:1] + "W"} {
+			for _, codec := range []int{0, 1} {
+				id := fmt.Sprintf("%s/%s/zero-rows/h=%s", sh.Name, CodecNames[codec], h)
+				if !c.Take(id) {
+					continue
+				}
+				sink := NewSink()
+				out := RunHistory(sh, sink, 3, codec, opsOf(h, pool), false)
+				if out.Panic != nil || !out.Finished {
+					continue // a C06 matter
+				}
+				c.Out.Count("cases", 1)
+				c.Out.Count("files_without_rows", 1)
+				c.Out.Distinct(id, true)
+				kind, detail := func() (k, d string) {
+					defer func() {
+						if r := recover(); r != nil {
+							k, d = "panic", fmt.Sprintf("introspection panicked: %v", r)
+						}
+					}()
+					return CheckIntrospection(c, sink.Buf)
+				}()
+				if kind != "" {
+					c.Out.Violate(Violation{Prop: "C16", Key: "origin=library;rows=0;kind=" + kind, Case: id, Shape: sh.Name,
+						Detail: fmt.Sprintf("valid file without rows (history %q then Close, %d bytes): %s", h, len(sink.Buf), detail)})
+				}
+			}
+		}
+	}
 	runC16Foreign(c)
 	// valid files that use features the READER does not implement: inspecting such files
 	// is what the introspection calls (parquetgen -metadata / -pageheaders) are for
